@@ -15,6 +15,7 @@ REPO = os.environ.get("HPO_REPO", "/repo")
 CACHE = os.path.join(VERIF, ".cache")
 DRIVER_DIR = os.path.join(VERIF, "driver")
 DRIVER = os.path.join(DRIVER_DIR, "target", "release", "hpo-facts")
+SLOTS = int(os.environ.get("HPO_FACT_SLOTS", "8"))  # cargo target directories used in parallel by concurrent extractions (each ~150 MB)
 SKIP_DIRS = {"target", ".git"}
 
 
@@ -70,17 +71,43 @@ def ensure_facts(root=None, targets="lib", quiet=True):
     key = tree_hash(root)
     outdir = os.path.join(CACHE, "facts", "%s-%s" % (key, targets))
     marker = os.path.join(outdir, "DONE")
-    lock = open(os.path.join(CACHE, "lock"), "w")
+    # Locking: one lock per KEY (two processes that want the facts of the same tree: the second waits and finds them cached), and a small pool of
+    # cargo target directories ("slots"), each used by one build at a time, so that different trees are extracted in parallel.  (One global
+    # lock around a ~10 s extraction made every sweep over hundreds of scratch trees serial.)
+    os.makedirs(os.path.join(CACHE, "locks"), exist_ok=True)
+    lock = open(os.path.join(CACHE, "locks", "key-%s-%s" % (key, targets)), "w")
     fcntl.flock(lock, fcntl.LOCK_EX)
+    slot_lock = None
     try:
         if os.path.exists(marker):
-            os.utime(outdir)
+            try:
+                os.utime(outdir)
+            except OSError:
+                pass
             return _collect(outdir, key)
-        ensure_driver()
+        glock = open(os.path.join(CACHE, "lock"), "w")
+        fcntl.flock(glock, fcntl.LOCK_EX)
+        try:
+            ensure_driver()
+        finally:
+            fcntl.flock(glock, fcntl.LOCK_UN)
+            glock.close()
+        slot = None
+        while slot is None:
+            for i in range(SLOTS):
+                f_ = open(os.path.join(CACHE, "locks", "slot-%d" % i), "w")
+                try:
+                    fcntl.flock(f_, fcntl.LOCK_EX | fcntl.LOCK_NB)
+                    slot, slot_lock = i, f_
+                    break
+                except OSError:
+                    f_.close()
+            if slot is None:
+                time.sleep(0.2)
         tmp = outdir + ".tmp"
         shutil.rmtree(tmp, ignore_errors=True)
         os.makedirs(tmp)
-        tdir = os.path.join(CACHE, "target")
+        tdir = os.path.join(CACHE, "target" if slot == 0 else "target-%d" % slot)
         # cargo's freshness cache would skip the wrapper: drop the fingerprints of workspace members
         for fp in glob.glob(os.path.join(tdir, "debug", ".fingerprint", "hpo-*")):
             shutil.rmtree(fp, ignore_errors=True)
@@ -124,8 +151,15 @@ def ensure_facts(root=None, targets="lib", quiet=True):
         _prune()
         return _collect(outdir, key)
     finally:
+        if slot_lock is not None:
+            fcntl.flock(slot_lock, fcntl.LOCK_UN)
+            slot_lock.close()
         fcntl.flock(lock, fcntl.LOCK_UN)
         lock.close()
+        try:
+            os.remove(os.path.join(CACHE, "locks", "key-%s-%s" % (key, targets)))
+        except OSError:
+            pass
 
 
 def _collect(outdir, key):
@@ -143,11 +177,18 @@ def _collect(outdir, key):
     return res
 
 
-def _prune(keep=24):
+def _prune(keep=64):
     base = os.path.join(CACHE, "facts")
-    ds = [os.path.join(base, d) for d in os.listdir(base) if not d.endswith(".tmp")]
-    ds.sort(key=lambda d: os.path.getmtime(d), reverse=True)
-    for d in ds[keep:]:
+    ds = []
+    for d in os.listdir(base):
+        if d.endswith(".tmp"):
+            continue
+        try:
+            ds.append((os.path.getmtime(os.path.join(base, d)), os.path.join(base, d)))
+        except OSError:
+            pass  # another process pruned it meanwhile
+    ds.sort(reverse=True)
+    for _, d in ds[keep:]:
         shutil.rmtree(d, ignore_errors=True)
 
 
